@@ -15,6 +15,9 @@ SEND_SAMPLES = _as_c07(_c01.SEND_SAMPLES)
 W_DRIVE = _as_c07(_c01.W_DRIVE)
 # driver side hand-over with clear=True once per step (to race control): proved as part of these two
 MOVE_NEXT = _as_c07(_c01.MOVE_NEXT)
+# the samples of a finished step are post-processed before the step's metrics are handed over / the store is closed (also at the LAST join point)
+JOINPOINT = _as_c07(_c01.JOINPOINT)
+MAY_COMPLETE = _as_c07(_c01.MAY_COMPLETE)
 
 DRIVER = dict(_c01.DRIVER, **{"Sample.client_id": "any"})
 UPDATE = dict(
@@ -49,7 +52,72 @@ POST_PROCESS = dict(
     cover=["return"],
 )
 
-CONTRACTS = [SEND_SAMPLES, W_DRIVE, MOVE_NEXT, UPDATE, POST_PROCESS]
+# ------------------------------------------------------------------------------------------------ SamplePostprocessor.__call__: one set of records per (down-sampled) sample, each with ITS OWN meta-data
+from contracts.C04 import SAMPLE_FIELDS  # noqa: E402
+
+PP_FIELDS = dict(SAMPLE_FIELDS, **{
+    "SamplePostprocessor.metrics_store": "any", "SamplePostprocessor.track_meta_data": "any", "SamplePostprocessor.challenge_meta_data": "any", "SamplePostprocessor.throughput_calculator": "any",
+    "SamplePostprocessor.downsample_factor": "int", "SamplePostprocessor.logger": "any", "Task.name": "str", "Task.meta_data": "any",
+})
+F_ = "self.downsample_factor"
+CNT = lambda i: f"(({i}) + {F_} - 1) // {F_}"  # noqa: E731  number of indices below i that are multiples of the down-sampling factor
+PUT = "self.metrics_store.put_value_cluster_level"
+MAIN_PUT = lambda name, field: [  # noqa: E731
+    f"kw_name == '{name}' and kw_value == sample.{field} * 1000 and kw_unit == 'ms'",
+    "kw_task == sample.task.name and kw_sample_type == sample.sample_type and kw_absolute_time == sample.absolute_time and kw_relative_time == sample.request_start - sample.task_start",
+    # the record carries the meta-data merged FOR THIS SAMPLE (its own request meta-data and client id), not somebody else's
+    "kw_meta_data == $merged and $msample == ref(sample)",
+]
+POSTPROC = dict(
+    target="esrally/driver/driver.py::SamplePostprocessor.__call__",
+    prop="C07",
+    self_type="obj[SamplePostprocessor]",
+    params={"raw_samples": "list[obj[Sample]]"},
+    fields=PP_FIELDS,
+    ghost_state={"$merged": "any", "$msample": "int", "$n_lat": "int", "$n_proc": "int"},
+    requires=[f"{F_} >= 1", "$n_lat == 0 and $n_proc == 0"],
+    lemmas={
+        "CNTstep": dict(vars={"i": "int", "f": "int"}, stmt="implies(i >= 0 and f >= 1, (i + 1 + f - 1) // f == (i + f - 1) // f + (1 if i % f == 0 else 0) and (0 + f - 1) // f == 0)"),
+    },
+    use=[("L0", "CNTstep", {"i": "_i0", "f": F_}), ("", "CNTstep", {"i": "0", "f": F_})],
+    externals={
+        "time.perf_counter": dict(returns="real"),
+        "self.merge": dict(returns="any", ghost_update=[("$merged", "result"), ("$msample", "ref(sample)")]),
+        PUT: dict(event="put", event_kwargs=["name", "value", "meta_data"],
+                  ghost_update=[("$n_lat", "$n_lat + (1 if kw_name == 'latency' else 0)"), ("$n_proc", "$n_proc + (1 if kw_name == 'processing_time' else 0)")]),
+        "sample.dependent_timings": dict(attr=True, returns="list[obj[Sample]]"),
+        "self.throughput_calculator.calculate": dict(returns="dict[obj[Task],list[tuple[real,real,any,real,any]]]"),
+        "self.metrics_store.flush": dict(event="flush", event_kwargs=["refresh"]),
+    },
+    at_call={
+        "self.merge@0": [
+            "a0 == self.track_meta_data and a1 == self.challenge_meta_data and a2 == sample.task.operation.meta_data and a3 == sample.task.meta_data",
+            "a4 == sample.request_meta_data and a5['client_id'] == sample.client_id",
+        ],
+        "self.merge@1": ["a0 == timing.request_meta_data and a1['client_id'] == sample.client_id"],
+        PUT + "@0": MAIN_PUT("latency", "latency"),
+        PUT + "@1": MAIN_PUT("service_time", "service_time"),
+        PUT + "@2": MAIN_PUT("processing_time", "processing_time"),
+        PUT + "@3": ["kw_name == 'service_time' and kw_value == timing.service_time * 1000 and kw_meta_data == $merged"],
+        PUT + "@4": ["kw_name == 'throughput'"],
+    },
+    loops={
+        0: dict(inv=[f"$n_lat == {CNT('_i')} and $n_proc == {CNT('_i')}", "final_sample_count == $n_lat"]),
+        1: dict(inv=["$n_lat == at('L1', $n_lat) and $n_proc == at('L1', $n_proc)"]),
+        2: dict(inv=[f"$n_lat == {CNT('len(raw_samples)')} and $n_proc == {CNT('len(raw_samples)')}"]),
+        3: dict(inv=[f"$n_lat == {CNT('len(raw_samples)')} and $n_proc == {CNT('len(raw_samples)')}"]),
+    },
+    ensures=[
+        # exactly one latency and one processing-time record per down-sampled request sample (the service-time record sits between them, checked at its call site)
+        f"$n_lat == {CNT('len(raw_samples)')} and $n_proc == {CNT('len(raw_samples)')}",
+        # and the batch is flushed to the store without forcing a refresh
+        "implies(len(raw_samples) > 0, evk(nev() - 1) == 'flush' and not eva(nev() - 1, 1, 'bool'))",
+        "implies(len(raw_samples) == 0, nev() == 0)",
+    ],
+    cover=["return"],
+)
+
+CONTRACTS = [POSTPROC, SEND_SAMPLES, W_DRIVE, MOVE_NEXT, MAY_COMPLETE, JOINPOINT, UPDATE, POST_PROCESS]
 ASSUMPTIONS = ["FIFO delivery (UpdateSamples before JoinPointReached of the same worker); pickle/zlib round trip of externalised metrics is the identity", "Sampler.samples drains the whole queue (queue.Queue semantics)",
                "the executor thread only touches sampler, complete, cancel"]
 NOT_DECIDED = ["interleaving of periodic ticks, shipments and hand-overs (outside this family)", "SamplePostprocessor.__call__ record counts, MetricsStore._put_metric / to_externalizable / bulk_add (not yet under contract in this revision)"]
